@@ -16,11 +16,13 @@ chunk = KaniUnit("c12_chunk", APP,
                              subst=[("queries.len()", "len"), ("self.parallelism", "parallelism")])],
                  modules=[dict(file=CA, src="c12_chunk.rs"), dict(file=CA, src="app_wit.rs")],
                  harnesses=[H("c12_chunk_size_nonzero", "complete", "CompassApp::run: chunk size != 0 for every batch size (u32) and parallelism >= 1 (u16) -- par_chunks(0) panics", timeout=200)])
-chunk.native_witnesses = ['c12_wit_empty_batch', 'c12_wit_rejected_only_batches', 'c12_wit_same_origin_and_destination', 'c12_wit_inject_plugin_on_non_object_queries', 'c12_wit_grid_search_empty_array', 'c12_wit_ill_typed_vertex_fields', 'c12_wit_wrong_type_query_is_echoed']
+chunk.native_witnesses = ['c12_wit_empty_batch', 'c12_wit_rejected_only_batches', 'c12_wit_same_origin_and_destination', 'c12_wit_inject_plugin_on_non_object_queries', 'c12_wit_grid_search_empty_array', 'c12_wit_ill_typed_vertex_fields', 'c12_wit_wrong_type_query_is_echoed', 'c06_wit_failing_child_of_an_expansion_does_not_take_its_siblings']
 msv = VerusUnit("c17_multiset", "c17_multiset", rlimit=60, paired_kani=(msk, []))
 gr = VerusUnit("c15_graph", "c15_graph", rlimit=60)
 rn = VerusUnit("c06_run", "c06_run", rlimit=30, paired_kani=(chunk, []))
-UNITS = [msv, gr, rn, msk, chunk]
+fw = KaniUnit("c12_format_wit", APP, modules=[dict(file=APP + "/src/app/compass/response/response_output_format.rs", src="c19_format_wit.rs")], harnesses=[])
+fw.native_witnesses = ["c19_wit_csv_formatting_keeps_the_search_error"]
+UNITS = [msv, gr, rn, msk, chunk, fw]
 EXPLANATION = ("whole-application panic freedom / boundedness is outside both back ends (rayon, serde_json, plugins, files). Decided: kernels the statement names -- MultiSet (Verus, any number of axes: "
                "the iterator is the mixed-radix successor and stops after the last tuple; expression-level obligation for `len - 1`), the chunk-size expression of CompassApp::run against rayon's par_chunks(0) panic, "
                "Graph::out_edges_iter / in_edges_iter answer a vertex id outside the graph with no edges instead of an index panic (Verus, unit c15_graph), "
